@@ -490,7 +490,11 @@ fn eval_func_expr(
     node: dom::XmlNode,
     context: &mut model::Context,
 ) -> error::Result<model::Value> {
-    let (local_part, _, uri) = context.expanded_name(func.name())?;
+    // an unprefixed function name is in no namespace: the default namespace is for elements.
+    let (local_part, _, uri) = match func.name() {
+        nom::model::QName::Unprefixed(u) => (u.to_string(), None, None),
+        name => context.expanded_name(name)?,
+    };
 
     let table = func::table();
     let entry = table
